@@ -393,4 +393,26 @@ theorem names_owner_live (he : NameEnc enc) {s : Bus.State} (hs : Bus.Reachable 
 
 end
 
+/-! ### a concrete instance (used by the `example` in Properties/C13.lean) -/
+
+def exEnc (n : Bus.Name) : BusRoute.Name := List.replicate (n + 1) 'a'
+
+theorem exEnc_ok : NameEnc exEnc := by
+  constructor
+  · intro a b h
+    have := congrArg List.length h
+    simp [exEnc] at this
+    exact this
+  · intro a
+    simp [exEnc, List.replicate_succ]
+
+def exHist : List Bus.HStep :=
+  [.op .connect, .op .connect, .op (.request 1 0 0), .op (.request 2 0 0), .send 2 (.wellKnown 0),
+   .op (.disconnect 1)]
+
+/-- The state of C14's model in which the effects of the example are applied: two connections, the
+first already marked lost (`stepDisconnect` applies the effects after that). -/
+def exBase : BusRoute.State ρ :=
+  { conns := [{ BusRoute.Conn.fresh with isConnected := false }, BusRoute.Conn.fresh] }
+
 end Txdbus.NamesRoute
